@@ -262,15 +262,45 @@ theorem resolve_layout_independent_of_no_clash (t1 t2 : Tab) (c : Ctx) (x : Stri
     resolve t1 c x = resolve t2 c x :=
   resolve_layout_independent t1 t2 c x hl hb (fun h => ⟨fun g => absurd g (n1 h), fun g => absurd g (n2 (hb.mp h))⟩)
 
-/-- the excluded case is real: a package-level function spelled like a builtin is found when it was compiled
-    before the reference and the builtin is taken when it comes after (open finding C16 builtin-named-function) -/
+/-- on bare tables the excluded case is real: a package-level name spelled like a builtin is found when its key is
+    there before the reference and the builtin is taken when it is not (the former finding C16 builtin-named-function;
+    it remains the behaviour of successive Eval chunks, where it is the order of the statements - C18) -/
 theorem builtin_clash_order_dependent :
     resolve { keys := [.builtin "println", .glob "println"], compiled := [] } { fn := "main.use", inScope := true, locals := [] } "println"
       ≠ resolve { keys := [.builtin "println"], compiled := [] } { fn := "main.use", inScope := true, locals := [] } "println" := by
   decide
 
-/-! The excluded case is the open finding `C16 builtin-named-function` (a package-level function spelled
-like a builtin that is an ordinary global: println, print, ...). -/
+/-! For a loaded package the excluded case cannot arise for functions (fix 36683fb): -/
+
+/-- **declared_function_resolves_to_package.** compilePkgs declares the names of a package's functions before it
+    compiles the package (`Gen.predeclaresFuncs`, regenerated). Then, in every body of the package - whatever was
+    compiled before it: any order of the declarations, any split into files, a first load or a reload - a reference
+    to a function of the package that no local and no type of the body hides is the package's function, also when a
+    builtin has that name. -/
+theorem declared_function_resolves_to_package (t : Tab) (names : List String) (h : List Ev) (c : Ctx) (x : String)
+    (hx : x ∈ names) (hd : x ≠ "$") (hl : x ∉ c.locals) (ht : Key.ltype c.fn x ∉ (h.foldl step (predeclare t names)).keys) :
+    resolve (h.foldl step (predeclare t names)) c x = .globalGet (.glob x) :=
+  package_beats_builtin _ c x hd hl ht (glob_mem_foldl h _ x (glob_mem_predeclare names t x (Or.inl hx)))
+
+/-- **resolve_layout_independent_declared.** In particular two layouts of the package (two histories after the same
+    declaration of the function names) resolve such a reference alike -/
+theorem resolve_layout_independent_declared (t : Tab) (names : List String) (h1 h2 : List Ev) (c : Ctx) (x : String)
+    (hx : x ∈ names) (hd : x ≠ "$") (hl : x ∉ c.locals)
+    (t1 : Key.ltype c.fn x ∉ (h1.foldl step (predeclare t names)).keys)
+    (t2 : Key.ltype c.fn x ∉ (h2.foldl step (predeclare t names)).keys) :
+    resolve (h1.foldl step (predeclare t names)) c x = resolve (h2.foldl step (predeclare t names)) c x := by
+  rw [declared_function_resolves_to_package t names h1 c x hx hd hl t1,
+    declared_function_resolves_to_package t names h2 c x hx hd hl t2]
+
+theorem predeclare_tie : Gen.predeclaresFuncs = true := by decide
+
+-- non-vacuity: the builtin is in the table, the function is declared after its caller
+example : resolve ([Ev.compile "app.Use" [], .compile "app.println" []].foldl step
+      (predeclare { keys := [.builtin "println"], compiled := [] } ["Use", "println", "Main"]))
+    { fn := "app.Use", inScope := true, locals := [] } "println" = .globalGet (.glob "println") := by decide
+example : resolve ([Ev.compile "app.println" [], .compile "app.Use" []].foldl step
+      (predeclare { keys := [.builtin "println"], compiled := [] } ["Use", "println", "Main"]))
+    { fn := "app.Use", inScope := true, locals := [] } "println" = .globalGet (.glob "println") := by decide
 
 /-! ### non-vacuity -/
 
@@ -290,3 +320,6 @@ end Goat.Props.C16
 #print axioms Goat.Props.C16.resolve_layout_independent
 #print axioms Goat.Props.C16.resolve_layout_independent_of_no_clash
 #print axioms Goat.Props.C16.builtin_clash_order_dependent
+#print axioms Goat.Props.C16.declared_function_resolves_to_package
+#print axioms Goat.Props.C16.resolve_layout_independent_declared
+#print axioms Goat.Props.C16.predeclare_tie
